@@ -47,6 +47,25 @@ func roundTrip(c *mc.Ctx, t uint32, z uint32, extent uint32) {
 	geo := layer.Features[0].Geometry.(orb.MultiPoint).Clone()
 	layer.ProjectToTile(tile)
 	back := layer.Features[0].Geometry.(orb.MultiPoint)
+	// absolute anchor (a shift applied consistently in both directions would survive the round trip): the WGS84
+	// image of pixel p lies inside pixel p's own cell of the tile, by the check's own web-mercator formulas
+	n := math.Ldexp(1, int(z))
+	for i, g := range geo {
+		p := float64(i - e)
+		ux := ((g[0]/360+0.5)*n - float64(t)) * float64(extent)
+		if ux < p-1e-6 || ux > p+1+1e-6 {
+			c.Failf("tile-anchor", "tile %v extent %d: pixel %v maps to longitude %v, which is tile-space x = %v (outside the pixel's cell)", tile, extent, p, g[0], ux)
+			return
+		}
+		if math.Abs(g[1]) < 85.0511 {
+			phi := g[1] * math.Pi / 180
+			uy := ((1-math.Log(math.Tan(math.Pi/4+phi/2))/math.Pi)/2*n - float64(t)) * float64(extent)
+			if uy < p-1e-6 || uy > p+1+1e-6 {
+				c.Failf("tile-anchor", "tile %v extent %d: pixel %v maps to latitude %v, which is tile-space y = %v (outside the pixel's cell)", tile, extent, p, g[1], uy)
+				return
+			}
+		}
+	}
 	for i, q := range back {
 		p := float64(i - e)
 		for ax := 0; ax < 2; ax++ {
